@@ -47,6 +47,12 @@ func MarshalTWKB(g Geometry, precXY int, opts ...TWKBWriterOption) ([]byte, erro
 		case TypePoint, TypeLineString, TypePolygon:
 			return nil, fmt.Errorf("TWKB ID list is not allowed for %s", g.Type())
 		}
+		// The ID count is checked here as well as in writeIDList, because an
+		// empty geometry is written as a bare "is empty" header and never
+		// gets as far as its ID list.
+		if num := twkbNumMembers(g); num != len(s.idList) {
+			return nil, fmt.Errorf("unexpected ID list length %d, expected %d", len(s.idList), num)
+		}
 	}
 
 	w := newtwkbWriter(hasZ, hasM, precXY, s.precZ, s.precM, s.hasSize, s.hasBBox, s.closeRings, s.idList)
@@ -54,6 +60,21 @@ func MarshalTWKB(g Geometry, precXY int, opts ...TWKBWriterOption) ([]byte, erro
 		return nil, fmt.Errorf("failed to marshal TWKB: %w", err)
 	}
 	return w.formTWKB(), nil
+}
+
+// twkbNumMembers gives the number of members of a MultiPoint, MultiLineString,
+// MultiPolygon or GeometryCollection (the number of IDs its ID list must have).
+func twkbNumMembers(g Geometry) int {
+	if g.IsMultiPoint() {
+		return g.MustAsMultiPoint().NumPoints()
+	}
+	if g.IsMultiLineString() {
+		return g.MustAsMultiLineString().NumLineStrings()
+	}
+	if g.IsMultiPolygon() {
+		return g.MustAsMultiPolygon().NumPolygons()
+	}
+	return g.MustAsGeometryCollection().NumGeometries()
 }
 
 // TWKBWriterOption allows setting of optional encoding parameters.
